@@ -76,18 +76,28 @@ End Bytes.
 (* the two files saveConfig touches *)
 Record fsys : Type := { f_lease : option bytes; f_tmp : option bytes }.
 
-(* saveConfig(new content) from file system [fs], step by step *)
-Definition fs_create_tmp (fs : fsys) : fsys := {| f_lease := f_lease fs; f_tmp := Some [] |}.
+(* saveConfig(new content) from ANY file system [fs] (the directory is part of the initial state: the temporary
+   file may be absent, or be whatever an earlier, interrupted save left there), step by step.
+   ioutil.WriteFile(tmp, ...) = OpenFile(tmp, O_WRONLY|O_CREATE|O_TRUNC) + Write + Close; the open flags are explicit:
+   [trunc] = O_TRUNC present (compared with the source on every run: kind consts). *)
+Definition tmp_content (fs : fsys) : bytes := match f_tmp fs with Some o => o | None => [] end.
+(* write at offset 0 over the existing content: what is beyond the written bytes stays *)
+Definition overwrite (written old : bytes) : bytes := written ++ skipn (List.length written) old.
+
+Definition fs_open_tmp (trunc : bool) (fs : fsys) : fsys :=
+  {| f_lease := f_lease fs; f_tmp := Some (if trunc then [] else tmp_content fs) |}.
 Definition fs_write_tmp (n : nat) (content : bytes) (fs : fsys) : fsys :=
-  {| f_lease := f_lease fs; f_tmp := Some (firstn n content) |}.
+  {| f_lease := f_lease fs; f_tmp := Some (overwrite (firstn n content) (tmp_content fs)) |}.
 Definition fs_rename (fs : fsys) : fsys := {| f_lease := f_tmp fs; f_tmp := None |}.
 
-Definition save_fs (content : bytes) (fs : fsys) : fsys :=
-  fs_rename (fs_write_tmp (List.length content) content (fs_create_tmp fs)).
+Definition save_fs_flags (trunc : bool) (content : bytes) (fs : fsys) : fsys :=
+  fs_rename (fs_write_tmp (List.length content) content (fs_open_tmp trunc fs)).
+(* saveConfig as it is: create-or-TRUNCATE, write, rename *)
+Definition save_fs (content : bytes) (fs : fsys) : fsys := save_fs_flags true content fs.
 
-(* every file system a crash during saveConfig can leave behind: before the first step, after the creation of the
+(* every file system a crash during saveConfig can leave behind: before the first step, after the open of the
    temporary file, after any prefix of the write, after the complete write, after the rename *)
 Definition crash_states (content : bytes) (fs : fsys) : list fsys :=
-  fs :: fs_create_tmp fs
-     :: map (fun n => fs_write_tmp n content (fs_create_tmp fs)) (seq 0 (S (List.length content)))
+  fs :: fs_open_tmp true fs
+     :: map (fun n => fs_write_tmp n content (fs_open_tmp true fs)) (seq 0 (S (List.length content)))
      ++ [save_fs content fs].
